@@ -43,6 +43,7 @@ pub enum RSlot {
     Node { node: XmlNode, doc: usize },
     Vec { nodes: Vec<XmlNode>, doc: usize },
     List { list: XmlNodeList, of: XmlNode, doc: usize },
+    TagList { list: xml_dom::XmlElementList, of: XmlNode, doc: usize },
     Map { map: XmlNamedNodeMap<XmlAttr>, of: XmlNode, doc: usize },
     Ctx { ctx: XCtx, ns: Vec<(String, String)> },
 }
@@ -606,6 +607,52 @@ impl Real {
                     }
                 }
             }
+            Op::TagList { node, name, out } => {
+                let (n, doc) = match self.node(*node) {
+                    Some(x) => x,
+                    None => return Outcome::Skipped,
+                };
+                let res = guarded(|| match &n {
+                    XmlNode::Document(d) => Some(Document::get_elements_by_tag_name(d, name)),
+                    XmlNode::Element(e) => Some(Element::get_elements_by_tag_name(e, name)),
+                    _ => None,
+                });
+                match res {
+                    Err(p) => Outcome::Panic(p),
+                    Ok(None) => Outcome::Skipped,
+                    Ok(Some(list)) => {
+                        self.set(*out, RSlot::TagList { list, of: n, doc });
+                        Outcome::Ok(Ret::Unit)
+                    }
+                }
+            }
+            Op::TagListRead { list, out } => {
+                let (res, doc) = match self.slots.get(*list).and_then(|v| v.as_ref()) {
+                    Some(RSlot::TagList { list, doc, .. }) => (
+                        guarded(|| {
+                            let n = list.length();
+                            let by_item: Vec<Option<XmlNode>> = (0..n).map(|i| list.item(i)).collect();
+                            let by_iter: Vec<XmlNode> = list.iter().collect();
+                            (n, by_item, by_iter, list.item(n).is_some())
+                        }),
+                        *doc,
+                    ),
+                    _ => return Outcome::Skipped,
+                };
+                match res {
+                    Err(p) => Outcome::Panic(p),
+                    Ok((n, by_item, by_iter, beyond)) => {
+                        let a: Vec<Option<usize>> = by_item.iter().map(|x| x.as_ref().map(|v| v.id())).collect();
+                        let b: Vec<Option<usize>> = by_iter.iter().map(|v| Some(v.id())).collect();
+                        if a != b || beyond {
+                            return Outcome::Panic(format!("live element list is inconsistent with itself: length {} item(i) {:?} iter {:?} item(length) present: {}", n, a, b, beyond));
+                        }
+                        let keys = by_iter.iter().map(|x| Key { doc, id: x.id() }).collect();
+                        self.set(*out, RSlot::Vec { nodes: by_iter, doc });
+                        Outcome::Ok(Ret::Nodes(keys))
+                    }
+                }
+            }
             Op::Touch { node } => {
                 let (n, _) = match self.node(*node) {
                     Some(x) => x,
@@ -758,6 +805,7 @@ impl Real {
                     }
                 }
                 RSlot::List { of, doc, .. } => v.push((of.clone(), *doc)),
+                RSlot::TagList { of, doc, .. } => v.push((of.clone(), *doc)),
                 RSlot::Map { of, doc, .. } => v.push((of.clone(), *doc)),
                 RSlot::Ctx { .. } => {}
             }
